@@ -1,4 +1,281 @@
+"""Header text obligations (S: bounded skeletons, every number and name symbolic).
+C02: the real parser on fmtH/fmtC(PF) exposes exactly PF.   C14: parse(write(state)) == state for the writer/parser pairs."""
+import z3
+from pyvc.vals import *  # noqa
+from pyvc.task import Task
+from pyvc.vc import veq
+from pyvc.libfile import TextFS, text_of_wfile
+from pyvc.libos import PathVal, to_path
+from pyvc.strings import SStr, NameAtom
+from spec.fmt import SkelPF, S
+
+PCK = "amr_kitchen.plotfile_cooker.PlotfileCooker."
+INLINE_PCK = (PCK + "read_boxes", PCK + "read_cell_headers", PCK + "compute_global_grids")
+
+
+def plt_path():
+    return PathVal([("dir", Opaque("D", "path", absolute=False)), ("name", Opaque("plt", "name"))], False, False)
+
+
+def install(ex, fs, root, pf, levels=None, cellh=True):
+    from pyvc.libos import join2
+    fs.add(ex, join2(ex, root, "Header"), pf.header_lines())
+    if cellh:
+        for lv in (range(pf.L + 1) if levels is None else levels):
+            fs.add(ex, join2(ex, join2(ex, root, f"Level_{lv}"), "Cell_H"), pf.cellh_lines(lv))
+
+
+def check_reader_view(ex, obj, pf, limit, maxmins, header_only, label="post", grids=True):
+    """obligations: the attributes of a PlotfileCooker-like object equal the abstract plotfile pf (levels 0..limit)"""
+    ctx = ex.ctx
+    A = obj.attrs
+    nd = pf.nd
+    L = pf.L if limit is None else limit
+
+    def ob(name, f):
+        ctx.oblige(f"{label}.{name}", f, "P")
+    keys = pf.field_keys()
+    fields = A.get("fields", {})
+    ob("fields-in-order", list(fields.keys()) == keys and list(fields.values()) == list(range(pf.nf)))
+    ob("ndims", A.get("ndims") == nd)
+    ob("time", veq(ctx, A.get("time"), pf.time))
+    ob("max_level", A.get("max_level") == pf.L)
+    ob("limit_level", A.get("limit_level") == L)
+    ob("geo_low", veq(ctx, A.get("geo_low"), pf.geo_lo))
+    ob("geo_high", veq(ctx, A.get("geo_high"), pf.geo_hi))
+    dx = A.get("dx") or []
+    ob("dx-all-levels", len(dx) == pf.L + 1 and veq(ctx, dx, pf.dx))
+    gs = A.get("grid_sizes") or []
+    ob("grid_sizes", len(gs) == pf.L + 1 and veq(ctx, [list(ex.as_iterable(g)) for g in gs], pf.n))
+    boxes = A.get("boxes") or []
+    ob("levels-exposed", len(boxes) == L + 1)
+    for lv in range(min(L + 1, len(boxes))):
+        exp = [[[pf.blo[lv][b][d], pf.bhi[lv][b][d]] for d in range(nd)] for b in range(pf.nboxes[lv])]
+        ob(f"boxes[{lv}]", veq(ctx, boxes[lv], exp))
+    if grids:
+        g = A.get("grids") or []
+        ob("grids-levels", len(g) == L + 1)
+        for lv in range(min(L + 1, len(g))):
+            for d in range(nd):
+                arr = g[lv][d]
+                i = ctx.fresh("gi")
+                ok = isinstance(arr, NDArray) and arr.ndim == 1
+                if ok:
+                    n = pf.n[lv][d]
+                    f = z3.Implies(z3.And(i >= 0, i < n), to_real(arr.elem((i,))) == pf.geo_lo[d] + (to_real(i) + 0.5) * pf.dx[lv][d])
+                    ob(f"grids[{lv}][{d}]", zand(to_z3(arr.shape[0]) == n, f))
+                else:
+                    ob(f"grids[{lv}][{d}]", False)
+    if header_only:
+        ob("header-only-has-no-cells", "cells" not in A)
+        return
+    cells = A.get("cells") or []
+    ob("cells-levels", len(cells) == L + 1)
+    root = to_path(ex, A.get("pfile"))
+    for lv in range(min(L + 1, len(cells))):
+        c = cells[lv]
+        nb = pf.nboxes[lv]
+        ob(f"cells[{lv}].indexes", veq(ctx, [[list(ex.as_iterable(x[0])), list(ex.as_iterable(x[1]))] for x in c.get("indexes", [])],
+                                       [[pf.ilo[lv][b], pf.ihi[lv][b]] for b in range(nb)]))
+        ob(f"cells[{lv}].offsets", veq(ctx, c.get("offsets"), pf.off[lv]))
+        files = c.get("files", [])
+        okf = len(files) == nb
+        for b in range(min(nb, len(files))):
+            p = to_path(ex, files[b])
+            want = root.parts + [f"Level_{lv}", ("fun", "text:" + repr(S(NameAtom(pf.fileatoms[lv][pf.file_of[lv][b]], plain=True))))]
+            okf = okf and p.absolute == root.absolute and [repr(x) for x in p.parts] == [repr(x) for x in want]
+        ob(f"cells[{lv}].files", okf)
+        if maxmins:
+            keys_ = pf.field_keys()
+            for nm, tab in (("mins", pf.mins), ("maxs", pf.maxs)):
+                d_ = c.get(nm) or {}
+                ok = list(d_.keys()) == keys_
+                ob(f"cells[{lv}].{nm}-keys", ok)
+                if ok:
+                    for ci, k in enumerate(keys_):
+                        col = d_[k]
+                        ob(f"cells[{lv}].{nm}[field {ci}]", veq(ctx, list(ex.as_iterable(col)), [tab[lv][b][ci] for b in range(nb)]))
+        else:
+            ob(f"cells[{lv}].no-minmax-unless-requested", "mins" not in c)
+
+
+class HeaderParse(Task):
+    """PlotfileCooker.__init__ (with read_boxes, read_cell_headers, compute_global_grids inlined) on fmtH/fmtC(PF)."""
+    prop = "C02"
+    reach = "S"
+    qual = PCK + "__init__"
+    inline = INLINE_PCK
+
+    def __init__(self, prop, nd, nf, nboxes, limit=None, maxmins=False, header_only=False, repeated=None, ref_extra=0, files=1):
+        self.prop = prop
+        self.cfg = dict(nd=nd, nf=nf, nboxes=nboxes, limit=limit, maxmins=maxmins, header_only=header_only, repeated=repeated,
+                        ref_extra=ref_extra, files=files)
+        self.name = (f"PlotfileCooker.__init__[nd={nd},nf={nf},boxes={nboxes},limit={limit},maxmins={maxmins},"
+                     f"header_only={header_only},repeated={repeated},ref+{ref_extra},files={files}]")
+
+    def functions(self):
+        return [self.qual] + list(INLINE_PCK)
+
+    def setup(self, ex):
+        c = self.cfg
+        ctx = ex.ctx
+        pf = SkelPF(c["nd"], c["nf"], c["nboxes"], repeated=c["repeated"], ref_extra=c["ref_extra"], files_per_level=c["files"])
+        # well-formedness used by the grids: geo_hi = geo_lo + n*dx, n >= 1, dx > 0
+        for lv in range(pf.L + 1):
+            for d in range(pf.nd):
+                ctx.assume(z3.And(pf.n[lv][d] >= 1, pf.dx[lv][d] > 0,
+                                  pf.geo_hi[d] == pf.geo_lo[d] + to_real(pf.n[lv][d]) * pf.dx[lv][d]))
+        fs = TextFS()
+        ctx.ghost["fs"] = fs
+        root = plt_path()
+        install(ex, fs, root, pf, cellh=not c["header_only"])
+        self_ = Record("amr_kitchen.plotfile_cooker.PlotfileCooker")
+        kw = dict(limit_level=c["limit"], header_only=c["header_only"], maxmins=c["maxmins"])
+        return {"self": self_, "args": [root], "kwargs": kw, "pf": pf, "fs": fs}
+
+    def post(self, ex, inp, out):
+        ctx = ex.ctx
+        c = self.cfg
+        pf = inp["pf"]
+        if c["limit"] is not None and c["limit"] > pf.L:
+            ctx.oblige("post.limit-above-finest-refused", out.kind == "exc" and out.exc.etype == "ValueError", "P", note=str(out.exc))
+            return
+        ctx.oblige("raises-nothing", out.kind == "ret", "P", note=str(out.exc))
+        if out.kind != "ret":
+            return
+        check_reader_view(ex, inp["self"], pf, c["limit"], c["maxmins"], c["header_only"])
+        opened = [k for k, m in inp["fs"].opened]
+        if c["header_only"]:
+            ctx.oblige("frame.header-only-opens-only-the-Header", all(k.endswith("/Header") for k in opened), "P", note=str(opened))
+        L = pf.L if c["limit"] is None else c["limit"]
+        ctx.oblige("frame.no-level-above-the-limit-is-opened",
+                   not any(f"Level_{lv}/" in k for k in opened for lv in range(L + 1, pf.L + 1)), "P", note=str(opened))
+
+
 def header_tasks(prop, tier):
-    return []
+    out = []
+    if prop == "C02":
+        cfgs = [dict(nd=3, nf=2, nboxes=[2, 1], maxmins=True, files=2), dict(nd=2, nf=2, nboxes=[1, 2], limit=0, ref_extra=1),
+                dict(nd=3, nf=3, nboxes=[1], repeated=(0, 2)), dict(nd=3, nf=1, nboxes=[1, 1], header_only=True),
+                dict(nd=2, nf=1, nboxes=[1, 1], limit=2), dict(nd=3, nf=2, nboxes=[1, 1, 1], limit=1, maxmins=True)]
+        if tier == "thorough":
+            cfgs += [dict(nd=3, nf=4, nboxes=[2, 3, 2, 1], maxmins=True, files=2, ref_extra=2, repeated=(1, 3)),
+                     dict(nd=2, nf=3, nboxes=[4, 4], limit=1, maxmins=True, files=3),
+                     dict(nd=3, nf=4, nboxes=[1, 2, 4], repeated=(0, 1), limit=2), dict(nd=2, nf=2, nboxes=[3], header_only=True)]
+        for c in cfgs:
+            out.append(HeaderParse("C02", **c))
+    if prop == "C14":
+        from props.roundtrip import roundtrip_tasks
+        out += roundtrip_tasks(tier)
+    return out
+
+
 def header_canaries(prop):
-    return []
+    f = "amr_kitchen/plotfile_cooker.py"
+    if prop == "C02":
+        return [("grid sizes lose their +1", [(f, "self.grid_sizes.append(grid_size + 1)", "self.grid_sizes.append(grid_size)")],
+                 ["PlotfileCooker.__init__[nd=3,nf=2,boxes=[2, 1],limit=None,maxmins=True,header_only=False,repeated=None,ref+0,files=2]"]),
+                ("min and max tables swapped", [(f, "lvmins.append(np.array(mins_str[:-1], dtype=float))", "lvmaxs.append(np.array(mins_str[:-1], dtype=float))")],
+                 ["PlotfileCooker.__init__[nd=3,nf=2,boxes=[2, 1],limit=None,maxmins=True,header_only=False,repeated=None,ref+0,files=2]"])]
+    from props.roundtrip import roundtrip_canaries
+    return roundtrip_canaries()
+
+
+# ---------------------------------------------------------------------------------------------------------------------
+# unbounded parts of C02
+
+
+from pyvc.task import FragmentTask
+from pyvc.loops import LoopSpec
+import ast as _ast
+
+
+class LimitDecision(FragmentTask):
+    """The level-limit decision of PlotfileCooker.__init__ (extracted fragment): None -> finest level; L <= finest -> L;
+    above the finest level -> ValueError, for every finest level and every requested limit."""
+    prop = "C02"
+    reach = "U"
+    qual = PCK + "__init__"
+    first = staticmethod(lambda s: isinstance(s, _ast.If) and "limit_level is None" in _ast.unparse(s.test))
+    last = first
+
+    def __init__(self, given):
+        self.given = given
+        self.name = f"PlotfileCooker.__init__.limit-decision[{'limit given' if given else 'limit None'}]"
+
+    def setup(self, ex):
+        ml = z3.Int("max_level")
+        ex.ctx.assume(ml >= 0)
+        lim = z3.Int("limit") if self.given else None
+        self_ = Record("amr_kitchen.plotfile_cooker.PlotfileCooker", max_level=ml)
+        return {"frame": {"self": self_, "limit_level": lim}, "ml": ml, "lim": lim, "self_": self_}
+
+    def post(self, ex, inp, out):
+        ctx = ex.ctx
+        ml, lim = inp["ml"], inp["lim"]
+        if lim is None:
+            ctx.oblige("post.none-means-finest", out.kind == "ret" and veq(ctx, inp["self_"].attrs.get("limit_level"), ml), "P")
+            return
+        if out.kind == "exc":
+            ctx.oblige("post.refuses-only-above-finest", zand(lim > ml, out.exc.etype == "ValueError"), "P")
+        else:
+            ctx.oblige("post.accepts-only-up-to-finest", lim <= ml, "P")
+            ctx.oblige("post.limit-kept", veq(ctx, inp["self_"].attrs.get("limit_level"), lim), "P")
+
+
+class GlobalGrids(Task):
+    """compute_global_grids for a SYMBOLIC number of levels: grids[lv][d][i] == geo_low[d] + (i + 1/2) dx[lv][d], with
+    grid_sizes[lv][d] points (real arithmetic; WF: geo_high = geo_low + n dx)."""
+    prop = "C02"
+    reach = "U"
+    qual = PCK + "compute_global_grids"
+
+    def __init__(self, nd):
+        self.nd = nd
+        self.name = f"compute_global_grids[nd={nd}]"
+
+    def setup(self, ex):
+        ctx = ex.ctx
+        nd = self.nd
+        L = z3.Int("L")
+        ctx.assume(L >= 0)
+        I, R = z3.IntSort(), z3.RealSort()
+        DX = [z3.Function(f"DX{d}", I, R) for d in range(nd)]
+        N = [z3.Function(f"N{d}", I, I) for d in range(nd)]
+        lo = [z3.Real(f"glo{d}") for d in range(nd)]
+        hi = [z3.Real(f"ghi{d}") for d in range(nd)]
+
+        def wf(lv):
+            lv = to_z3(lv)
+            return z3.And(*[z3.And(N[d](lv) >= 1, DX[d](lv) > 0, hi[d] == lo[d] + to_real(N[d](lv)) * DX[d](lv)) for d in range(nd)])
+
+        def grid(lv, d):
+            lv = to_z3(lv)
+            return NDArray([N[d](lv)], lambda ix: lo[d] + (to_real(ix[0]) + 0.5) * DX[d](lv))
+        self_ = Record("amr_kitchen.plotfile_cooker.PlotfileCooker", limit_level=L, ndims=nd, geo_low=lo, geo_high=hi,
+                       dx=SymSeq(L + 1, lambda lv: [DX[d](to_z3(lv)) for d in range(nd)]),
+                       grid_sizes=SymSeq(L + 1, lambda lv: Vec([N[d](to_z3(lv)) for d in range(nd)])))
+
+        def template(ex_, fr, k, entry):
+            return {"grids": SymSeq(k, lambda lv: [grid(lv, d) for d in range(nd)]), "__assume__": [wf(k)]}
+        self.loopspecs = {(self.qual, 0): LoopSpec(template)}
+        return {"self": self_, "args": [], "L": L, "grid": grid}
+
+    def post(self, ex, inp, out):
+        ctx = ex.ctx
+        ctx.oblige("raises-nothing", out.kind == "ret", "P", note=str(out.exc))
+        if out.kind != "ret":
+            return
+        L, grid = inp["L"], inp["grid"]
+        ctx.oblige("post.cell-centres-of-every-level", veq(ctx, out.value, SymSeq(L + 1, lambda lv: [grid(lv, d) for d in range(self.nd)]),
+                                                          need_init=False), "P")
+
+
+_ht = header_tasks
+
+
+def header_tasks(prop, tier):      # noqa: F811
+    out = _ht(prop, tier)
+    if prop == "C02":
+        out += [LimitDecision(True), LimitDecision(False), GlobalGrids(2), GlobalGrids(3)]
+    return out
